@@ -14,7 +14,7 @@ open BeyondVerif.Generated
 /-- the routing tables of the six `Timescale` nodes after the `+` chains executed at import -/
 def scalesGraph : Node.Graph := (Node.build (scalesN + 2) scalesHist).getD []
 
-def cfg : Cfg := ⟨scalesGraph, scalesN, scaleOps, refScale⟩
+def cfg : Cfg := ⟨scalesGraph, scalesN, scaleOps, refScale, utcScale⟩
 
 def gapCell : Int := 899999999
 
